@@ -83,6 +83,17 @@ def make_strategy(script, log):
                         'extra': extra})
 
         def before(self):
+            if script.get('raise_before_at') is not None and self.index == script['raise_before_at']:
+                raise RuntimeError('scripted failure')
+            if script.get('indicator'):
+                # a non-sequential indicator: computed on the candle window that helpers.slice_candles cuts with the configured warm-up size
+                import jesse.indicators as ta
+                try:
+                    v = float(ta.ema(self.candles, 20))
+                except Exception as e:
+                    v = 'raise:' + type(e).__name__
+                self._log('before', {'ema20': v})
+                return
             self._log('before')
 
         def after(self):
@@ -95,11 +106,18 @@ def make_strategy(script, log):
             a = np.array(x, dtype=float)
             return a.reshape(-1, 2)
 
+        def _vd(self):
+            # decisions that depend on what the strategy can read (all routes' candles), when the script asks for it
+            if not script.get('view_dependent'):
+                return 0
+            import zlib
+            return zlib.crc32(repr(self._digest()).encode()) % 1000003
+
         def should_long(self):
-            return script['side'] in ('long', 'both') and self._r('sl') % script['entry_every'] == 0
+            return script['side'] in ('long', 'both') and (self._r('sl') + self._vd()) % script['entry_every'] == 0
 
         def should_short(self):
-            if script['side'] in ('long', 'both') and self._r('sl') % script['entry_every'] == 0:
+            if script['side'] in ('long', 'both') and (self._r('sl') + self._vd()) % script['entry_every'] == 0:
                 return False
             return script['side'] in ('short', 'both') and self.exchange_type != 'spot' and self._r('ss') % script['entry_every'] == 1
 
